@@ -39,8 +39,29 @@ def parseConnEv (t : String) : Option ScriptEv :=
     `x=1`: the transport returns its last bytes together with the EOF / error (`CN.coal`).
     `h=mux` (handlers reached through a shared `ServeMux`) does not change what the model
     predicts: that it makes no difference is part of what is being checked. -/
-def judgeConn (d : DictRt) (n : Nat) (useMux coal : Bool) (evTok : String) (impl : List String) : Judged :=
+def judgeConn (d : DictRt) (n : Nat) (useMux coal : Bool) (evTok : String) (impl : List String) (mux2 : Bool := false) : Judged :=
   let dfn := d.dictFn
+  -- `h=mux2`: only Device-Watchdog requests have a handler; any other message is reported by the
+  -- mux and the reader goes on at once - in the model: its handler returns immediately
+  let handled := fun (m : Msg) => ¬ mux2 ∨ (m.hdr.cmd = 280 ∧ isRequest m.hdr.flags)
+  let rec skipUnhandled (fuel : Nat) (s : CN) : CN :=
+    match fuel with
+    | 0 => s
+    | fuel+1 =>
+      if s.reader = .inHandler then
+        match s.handed.getLast? with
+        | some m =>
+          if handled m then s else
+          match s.step dfn .handlerReturn with
+          | some s1 => skipUnhandled fuel (CN.settle dfn 200 s1)
+          | none => s
+        | none => s
+      else s
+  let snap := fun (s : CN) =>
+    if mux2 then
+      let ids := ".".intercalate ((s.handed.filter handled).map (fun m => toString m.hdr.hbh))
+      s!"{showChan s.chan},{if ids = "" then "-" else ids},{s.active},{if s.reader = .exited then "x" else "r"}{if s.copier = .reading ∨ s.copier = .writing then "c" else "-"},{if s.closed then "closed" else "open"},*"
+    else snapshot s
   let evs := (evTok.splitOn ",").filterMap parseConnEv
   let init : List CN := List.replicate n (CN.settle dfn 10 { coal := coal })
   let (_, outs, skipped, maxAct, chanBad) := evs.foldl (fun (acc : List CN × List String × Nat × Nat × List String) (ev : ScriptEv) =>
@@ -49,7 +70,7 @@ def judgeConn (d : DictRt) (n : Nat) (useMux coal : Bool) (evTok : String) (impl
       | .register =>
         -- a registration takes the mux write lock: possible only while no handler runs; it
         -- changes nothing on any connection
-        if useMux ∧ conns.all (fun s => s.active = 0) then (conns, outs ++ ["|".intercalate (conns.map snapshot)], skipped, mx, bad)
+        if useMux ∧ conns.all (fun s => s.active = 0) then (conns, outs ++ ["|".intercalate (conns.map snap)], skipped, mx, bad)
         else (conns, outs ++ ["skip"], skipped + 1, mx, bad)
       | .conn k e =>
       match conns[k]? with
@@ -58,10 +79,10 @@ def judgeConn (d : DictRt) (n : Nat) (useMux coal : Bool) (evTok : String) (impl
         match s.step dfn e with
         | none => (conns, outs ++ ["skip"], skipped + 1, mx, bad)
         | some s1 =>
-          let s2 := CN.settle dfn 200 s1
+          let s2 := skipUnhandled 50 (CN.settle dfn 200 s1)
           let conns' := conns.set k s2
           let bad' := if s2.closes > 1 then bad ++ ["closed-twice"] else if s2.chan = .closed ∧ ¬ s2.terminated then bad ++ ["closed-while-alive"] else bad
-          (conns', outs ++ ["|".intercalate (conns'.map snapshot)], skipped, max mx s2.maxActive, bad')) (init, [], 0, 0, [])
+          (conns', outs ++ ["|".intercalate (conns'.map snap)], skipped, max mx s2.maxActive, bad')) (init, [], 0, 0, [])
   let out := " ; ".intercalate outs
   let implOut := " ".intercalate impl
   -- Spec verdicts on the implementation's own snapshots
@@ -84,6 +105,7 @@ def judgeConn (d : DictRt) (n : Nat) (useMux coal : Bool) (evTok : String) (impl
           if si ≠ smm ∧ si ≠ "skip" ∧ smm ≠ "skip" then
             if field si 1 ≠ field smm 1 then
               fails := (if (field smm 1).startsWith (field si 1) ∨ field si 1 = "-" then "C08:message-not-dispatched-or-delayed" else "C08:handler-order-or-messages-differ") :: fails
+              if mux2 then fails := "C15:fault-on-one-connection-stalls-dispatch" :: fails
               if hasTimeout then fails := "C05:framing-lost-after-failed-read" :: fails
             else if field si 0 ≠ field smm 0 then
               fails := (if field smm 0 = "closed" then "C14:close-notify-did-not-fire" else if field si 0 = "closed" then "C14:close-notify-fired-early-or-unrequested" else "C14:channel-state-differs") :: fails
